@@ -360,6 +360,17 @@ func c09GenLog(rt *rapid.T) *c09Case {
 			}
 			e.StartIndex = c.Idx[e.StartPos]
 			at := c.States[e.StartPos]
+			// was the read set of v written by a committed entry strictly between the start and this position?
+			touched := func(v *c09Verify) bool {
+				for q := e.StartPos + 1; q < p; q++ {
+					for _, k := range c.writesAt(q) {
+						if c09Touches(v, k) {
+							return true
+						}
+					}
+				}
+				return false
+			}
 			readKeys := map[string]bool{}
 			for _, k := range sp.Reads {
 				readKeys[c09Keys[k]] = true
@@ -379,8 +390,10 @@ func c09GenLog(rt *rapid.T) *c09Case {
 					continue
 				}
 				v := c09Verify{Key: k, Hash: c09HashRead(k, at)}
-				if sp.ForgeRead == len(e.Verifies) {
-					// a hash that need not describe the state at the start index: another pool value, or absence
+				if sp.ForgeRead == len(e.Verifies) && touched(&v) {
+					// a hash that does not describe the state at the start index (another pool value, or absence).
+					// Only where the key was written in the window: there every replica has to verify it. A wrong
+					// hash on an untouched key is outside the input domain (the fast path trusts the leader).
 					alt := c09State{}
 					if sp.ForgeVal < len(c09Values) {
 						alt[k] = c09Values[sp.ForgeVal]
@@ -394,7 +407,7 @@ func c09GenLog(rt *rapid.T) *c09Case {
 			for _, ls := range sp.Lists {
 				v := c09Verify{IsList: true, Prefix: c09Prefixes[ls.Prefix], After: c09Afters[ls.After], Limit: c09Limits[ls.Limit]}
 				v.Key, v.Hash = c09HashList(v.Prefix, v.After, v.Limit, at)
-				if ls.ForgeFrom >= 0 {
+				if ls.ForgeFrom >= 0 && touched(&v) {
 					o := p - 1 - ls.ForgeFrom
 					if o < 0 {
 						o = 0
@@ -405,36 +418,22 @@ func c09GenLog(rt *rapid.T) *c09Case {
 				}
 				e.Verifies = append(e.Verifies, v)
 			}
-			// reference verdict. always-verify: commit iff every hash matches the state at this position.
-			// A verification whose read set no committed entry in (start, position) wrote is unobservable
-			// for an honest hash (state unchanged => it matches); for a forged hash the documented fast path
-			// trusts the leader, and so does the reference.
-			alwaysVerify, trusting := true, true
+			// reference verdict, always-verify: commit iff every hash matches the state at this position.
+			alwaysVerify := true
 			for i := range e.Verifies {
 				v := &e.Verifies[i]
-				touched := false
-				for q := e.StartPos + 1; q < p && !touched; q++ {
-					for _, k := range c.writesAt(q) {
-						if c09Touches(v, k) {
-							touched = true
-							break
-						}
-					}
-				}
-				if touched {
+				tch := touched(v)
+				if tch {
 					e.Stale = true
 				}
 				if !c09Matches(v, cur) {
 					alwaysVerify = false
-					if touched {
-						trusting = false
+					if !tch {
+						rt.Fatalf("harness: transaction %v: verification %d does not match although its read set is untouched", e, i)
 					}
 				}
 			}
-			if !e.Forged && alwaysVerify != trusting {
-				rt.Fatalf("harness: honest transaction %v: always-verify=%v but untouched-trusting=%v", e, alwaysVerify, trusting)
-			}
-			e.ModelCommit = trusting
+			e.ModelCommit = alwaysVerify
 			if e.ModelCommit {
 				for _, w := range e.Writes {
 					if w.Del {
@@ -703,7 +702,7 @@ func c09PickPos(rt *rapid.T, label string, cands []int) int {
 
 func TestVerif_C09_Replicas(t *testing.T) {
 	rec := verifx.NewRecorder("C09", "replicas",
-		"log of 3..40 entries from a simulated leader (puts/deletes over 6 keys in 2 directories, 3 values + empty; transactions started up to 6 entries back with verifyRead/verifyList hashes computed by the package's helpers on the model state at the start index, ~8% of hashes forged; raft index gaps; LowestActiveIndex of a correct leader) applied to R0 (1 entry per batch), R1 (random batches), R2 (random batches + Close/NewFSM at a generated position), R3 (optional lagging prefix, then snapshot of R0 through BoltSnapshotStore/BoltSnapshotSink/boltSnapshotInstaller/FSM.Restore at a generated position, then the suffix); non-trivial = the log has a transaction whose read set was written between its start index and its position AND a reopen or snapshot install of a replica lies strictly between that start and that position")
+		"log of 3..40 entries from a simulated leader (puts/deletes over 6 keys in 2 directories, 3 values + empty; transactions started up to 6 entries back with verifyRead/verifyList hashes computed by the package's helpers on the model state at the start index, ~5% of hashes of modified keys/listings forged; raft index gaps; LowestActiveIndex of a correct leader) applied to R0 (1 entry per batch), R1 (random batches), R2 (random batches + Close/NewFSM at a generated position), R3 (optional lagging prefix, then snapshot of R0 through BoltSnapshotStore/BoltSnapshotSink/boltSnapshotInstaller/FSM.Restore at a generated position, then the suffix); non-trivial = the log has a transaction whose read set was written between its start index and its position AND a reopen or snapshot install of a replica lies strictly between that start and that position")
 	defer rec.Flush()
 	rapid.Check(t, func(rt *rapid.T) {
 		c := c09GenLog(rt)
